@@ -372,8 +372,11 @@ func (c *Conn) writeFatal(err error) error {
 }
 
 func (c *Conn) write(frameType int, deadline time.Time, bufs ...[]byte) error {
+	verifPoint("write.lockwait", c)
 	<-c.mu
+	verifPoint("write.locked", c)
 	defer func() { c.mu <- true }()
+	defer verifPoint("write.unlock", c)
 
 	c.writeErrMu.Lock()
 	err := c.writeErr
@@ -385,6 +388,7 @@ func (c *Conn) write(frameType int, deadline time.Time, bufs ...[]byte) error {
 	c.conn.SetWriteDeadline(deadline)
 	for _, buf := range bufs {
 		if len(buf) > 0 {
+			verifPoint("write.conn", c)
 			_, err := c.conn.Write(buf)
 			if err != nil {
 				return c.writeFatal(err)
@@ -434,6 +438,7 @@ func (c *Conn) WriteControl(messageType int, data []byte, deadline time.Time) er
 		}
 	}
 
+	verifPoint("control.lockwait", c)
 	timer := time.NewTimer(d)
 	select {
 	case <-c.mu:
@@ -441,7 +446,9 @@ func (c *Conn) WriteControl(messageType int, data []byte, deadline time.Time) er
 	case <-timer.C:
 		return errWriteTimeout
 	}
+	verifPoint("control.locked", c)
 	defer func() { c.mu <- true }()
+	defer verifPoint("control.unlock", c)
 
 	c.writeErrMu.Lock()
 	err := c.writeErr
@@ -451,6 +458,7 @@ func (c *Conn) WriteControl(messageType int, data []byte, deadline time.Time) er
 	}
 
 	c.conn.SetWriteDeadline(deadline)
+	verifPoint("control.conn", c)
 	_, err = c.conn.Write(buf)
 	if err != nil {
 		return c.writeFatal(err)
